@@ -41,7 +41,7 @@ using std::string;
 
 // Nesting depth of expand_manifest() calls, and its limit; see get_identifier().
 static int manifest_expansion_depth = 0;
-static const int max_manifest_expansion_depth = 200;
+static const int max_manifest_expansion_depth = 1000;
 static const int max_manifest_expansions_per_invocation = 20000;
 
 // We manage our own visibility counter, in addition to that managed by
